@@ -41,6 +41,52 @@ PROPS["C02"] = dict(_DB_COMMON,
     assumptions=["the value type is abstract: byte strings are mapped to tokens by exact comparison"],
 )
 
+PROPS["C01"] = dict(_DB_COMMON,
+    check="Run_DB.check_C01",
+    technique="Rocq proof (db.go model: no data, no state change, no save without a matching grant; denial blind to state; list exact) + differential histories with mixed callers on the real db.DB judged step by step in the kernel",
+    level_text=("Machine-checked theorems about the model of db/db.go for every rule set, caller, operation, name and state: a call carries data, changes the store or saves only if "
+                "the rules allow the required action on exactly that name; a well-formed ungranted call is refused as access-denied with state unchanged; the refusal is a function "
+                "of caller and request only (identical for existing, absent and reserved names); list returns exactly the info-permitted secrets with names and version numbers only. "
+                "Tied to the code by histories with diverse rule sets (empty, exact, wildcard, split action/pattern over two rules) on the real database: the access decision, the "
+                "no-change/no-data consequence of a denial and the list payload are compared with the model in the kernel at every step."),
+    level_note="Trusted: Coq kernel+VM; differential tie (sampled histories, 3-5 callers); the pattern semantics is C07's; HTTP status mapping is C08.",
+    rule=("random histories of 6-30 calls by 3-5 callers with diverse rule sets on the real db.DB; one case = one history; non-trivial if it contains at least one denied and one "
+          "allowed call; distinct by callers+operation sequence"),
+    explain="the access decision of db.DB (or what a denied call revealed/changed, or the list payload) differs from the model on the last step of this history",
+    assumptions=["glob semantics as proved for C07", "values are tokens"],
+)
+
+PROPS["C03"] = dict(_DB_COMMON,
+    check="Run_DB.check_C03",
+    technique="Rocq proof (disk = acknowledged state invariant over all histories and save outcomes; load(doc_of s) = s) + reopen-after-every-operation differential run incl. injected save failures, golden schema-v1 files",
+    level_text=("Machine-checked theorems: for every history and every pattern of save failures the file content equals the document of the acknowledged in-memory state (so reopening "
+                "loses nothing acknowledged and resurrects nothing), decoding the document of any invariant state returns exactly that state incl. the next-version counters, and "
+                "opening an existing file emits no write. Tied to the code by histories where after EVERY operation the file is reopened with db.Open under the same key in a second "
+                "handle and independently decoded from the documented schema-v1 layout (names, versions, bytes, active, LatestVersion), compared with the model state in the kernel; "
+                "the file hash/inode must be untouched by Open; golden files written by the pinned release must open to their recorded contents."),
+    level_note="Trusted: Coq kernel+VM; Go's encoding/json+base64 text layer (model is at tree level); tink for opening files in the harness; differential tie is sampled.",
+    rule=("random histories (4-30 calls, 12% refused saves) on the real db.DB with a reopen + independent schema decode after every call, plus golden files; non-trivial if at least "
+          "three mutations succeeded; distinct by operation sequence"),
+    explain="the reopened database file (contents or next-version counter) differs from the state implied by the acknowledged operations, or Open wrote to the file, or the file is not schema-v1",
+    assumptions=["values are tokens", "save failures are injected by making the state directory temporarily unreachable"],
+)
+
+PROPS["C06"] = dict(_DB_COMMON,
+    check="Run_DB.check_C06",
+    technique="Rocq proof (effect-order theorems over db_step: record precedes every disclosure/save, denial logged, fail-closed, unchanged poll silent) + differential histories with failing audit sinks compared in the kernel",
+    level_text=("Machine-checked theorems about the ordered effect list of every call of the db.go model: a result carrying a value implies a preceding complete get record for that "
+                "principal, name and requested version; every save is preceded by its record; every denial writes an unauthorized record; if the record cannot be written or synced "
+                "the call fails with no data, no save and unchanged state (and a write failure is sticky); an unchanged conditional get writes nothing; list writes exactly one record. "
+                "Tied to the code by histories with mixed callers and an instrumented sink that records each record together with whether the database file had already changed, and "
+                "that fails on write or on sync at chosen records; the observed ordered effects are compared with the model's in the kernel. Concurrent appends to a real audit file "
+                "are checked for whole, uninterleaved lines."),
+    level_note="Trusted: Coq kernel+VM; O_APPEND single-write atomicity of the OS and data-race freedom are runtime facts (tested, not proved): partial for the concurrency clause.",
+    rule=("random histories (6-30 calls, mixed callers, 6% audit faults, 8% refused saves) on the real db.DB with an instrumented audit sink; non-trivial if at least one denial and "
+          "three records; distinct by callers+operation sequence"),
+    explain="the audit records written by db.DB (content or order relative to the file replacement and the result) differ from the model on the last step of this history",
+    assumptions=["the instrumented sink observes order by hashing the database file at every record"],
+)
+
 # properties not (yet) claimed, with the reason
 NOT_APPLICABLE = {
 }
